@@ -75,12 +75,6 @@ type enableAppStart struct {""", 1),
  """		pid, err := c.core.RouteSpawn(c.core.Name(), m.Name, m.Options, c.peer)""",
  """		pid, err := c.core.RouteSpawn(c.core.Name(), m.Name, m.Options, c.core.Name())""", 1),
 # ---------------- C16
-("C16", "m4-decode-string-no-length-check", "net/edf/decode.go",
- """	if len(packet) < l {
-		return nil, nil, errDecodeEOD
-	}
-	value.SetString(string(packet[:l]))""",
- """	value.SetString(string(packet[:l]))""", 1),
 ("C16", "m4-handshake-no-deadline", "net/handshake/handshake.go",
  """	conn.SetReadDeadline(time.Now().Add(timeout))""",
  """	_ = timeout""", 1),
@@ -113,45 +107,41 @@ type enableAppStart struct {""", 1),
 	}""", 1),
 # ---------------- C11
 ("C11", "m4-decode-uint16-reads-1-byte", "net/edf/decode.go",
- """	if len(packet) < 2 {
-		return nil, nil, errDecodeEOD
-	}
-	v := binary.BigEndian.Uint16(packet)
-	value.SetUint(uint64(v))
-	return &value, packet[2:], nil""",
- """	if len(packet) < 2 {
-		return nil, nil, errDecodeEOD
-	}
-	v := binary.BigEndian.Uint16(packet)
-	value.SetUint(uint64(v))
-	return &value, packet[1:], nil""", 1),
+ """	v := binary.BigEndian.Uint16(packet[:2])""",
+ """	v := binary.BigEndian.Uint16(packet[1:3])""", 1),
 # ---------------- C12
 ("C12", "m4-reader-alias-words-swapped", "net/proto/connection.go",
- """			to := gen.Alias{
-				Node:     c.core.Name(),
-				Creation: c.core.Creation(),
+ """			idTo := [3]uint64{
+				binary.BigEndian.Uint64(buf.B[25:33]),
+				binary.BigEndian.Uint64(buf.B[33:41]),
+				binary.BigEndian.Uint64(buf.B[41:49]),
 			}
-			to.ID[0] = binary.BigEndian.Uint64(buf.B[25:33])
-			to.ID[1] = binary.BigEndian.Uint64(buf.B[33:41])
-			to.ID[2] = binary.BigEndian.Uint64(buf.B[41:49])""",
- """			to := gen.Alias{
-				Node:     c.core.Name(),
-				Creation: c.core.Creation(),
+
+			msg, tail, err := edf.Decode(buf.B[49:], c.decodeOptions)""",
+ """			idTo := [3]uint64{
+				binary.BigEndian.Uint64(buf.B[25:33]),
+				binary.BigEndian.Uint64(buf.B[41:49]),
+				binary.BigEndian.Uint64(buf.B[33:41]),
 			}
-			to.ID[0] = binary.BigEndian.Uint64(buf.B[25:33])
-			to.ID[2] = binary.BigEndian.Uint64(buf.B[33:41])
-			to.ID[1] = binary.BigEndian.Uint64(buf.B[41:49])""", 1),
+
+			msg, tail, err := edf.Decode(buf.B[49:], c.decodeOptions)""", 1),
 # ---------------- C02
 ("C02", "m4-sendalias-meta-no-wake", "node/core.go",
- """		atomic.AddUint64(&mp.messagesIn, 1)
-		mp.handle()
-		return nil""",
- """		atomic.AddUint64(&mp.messagesIn, 1)
-		return nil""", 1),
+ """		atomic.AddUint64(&m.messagesIn, 1)
+		m.handle()
+		return nil
+	}
+
+	switch options.Priority {""",
+ """		atomic.AddUint64(&m.messagesIn, 1)
+		return nil
+	}
+
+	switch options.Priority {""", 1),
 # ---------------- C06
 ("C06", "m4-registerevent-store", "node/node.go",
  """	if _, exist := n.events.LoadOrStore(ev, event); exist {
-		return empty, gen.ErrTaken
+		return token, gen.ErrTaken
 	}""",
  """	n.events.Store(ev, event)""", 1),
 # ---------------- C19
